@@ -229,7 +229,11 @@ class StmtMixin:
                 for st2, idx in self.evx(tgt.slice, st1, sink):
                     newbase = self.store_item(base, idx, v, st2, sink, tgt)
                     if newbase is not None:
-                        out.append(self.write_back(tgt.value, st2, newbase, sink))
+                        st3 = self.write_back(tgt.value, st2, newbase, sink)
+                        mon = getattr(self.current, "item_monitors", {}) if self.current is not None else {}
+                        if isinstance(tgt.value, ast.Name) and tgt.value.id in mon:
+                            st3 = mon[tgt.value.id](self, st3, idx, v)
+                        out.append(st3)
             return out
         raise Unsupported("assignment target", tgt)
 
